@@ -16004,6 +16004,8 @@ R_<TG_, TA_>::load(ReadStream& stream) noexcept {
 	_core.registry.compoResumable.clear();
 	_apex.deepLoadRequested(_core.registry, stream);
 
+	const CompoForks loadedResumable = _core.registry.compoResumable;
+
 	_core.requests.clear();
 	// TODO: load(stream, _core.requests);
 
@@ -16029,6 +16031,9 @@ R_<TG_, TA_>::load(ReadStream& stream) noexcept {
 	PlanControl control{_core, emptyTransitions};
 
 	_apex.deepChangeToRequested(control);
+
+	// exits and entries above rewrite the resumable prongs: reinstate the loaded ones
+	_core.registry.compoResumable = loadedResumable;
 
 	HFSM2_IF_STRUCTURE_REPORT(udpateActivity());
 }
@@ -16620,6 +16625,8 @@ RV_<G_<NFT_, TC_, Manual, TRO_ HFSM2_IF_UTILITY_THEORY(, TR_, TU_, TG_), NSL_ HF
 	HFSM2_ASSERT(_core.registry.empty());
 	_apex.deepLoadRequested(_core.registry, stream);
 
+	const typename Base::CompoForks loadedResumable = _core.registry.compoResumable;
+
 	HFSM2_ASSERT(_core.requests.empty());
 
 #if HFSM2_PLANS_AVAILABLE()
@@ -16639,6 +16646,9 @@ RV_<G_<NFT_, TC_, Manual, TRO_ HFSM2_IF_UTILITY_THEORY(, TR_, TU_, TG_), NSL_ HF
 	PlanControl control{_core, emptyTransitions};
 
 	_apex.deepEnter(control);
+
+	// entries above clear resumable prongs equal to the entered ones: reinstate the loaded ones
+	_core.registry.compoResumable = loadedResumable;
 
 	HFSM2_IF_STRUCTURE_REPORT(udpateActivity());
 }
